@@ -250,6 +250,9 @@ def expected_derived(spec, d):
         if not unhex(new["lo"]) < unhex(new["hi"]):
             return spec, spec, "PriorException"
         return new, new, None
+    if how == "with_message":
+        # Prior.with_message after the prior was used: message of d["msg"], class and limits of the prior it was copied from
+        return d["msg"], dict(d["msg"], lo=spec["lo"], hi=spec["hi"]), None
     if how == "set_limits":
         # in-place change of the public limit attributes after the object was used: message as before, gate = the new limits
         new = dict(spec)
@@ -292,16 +295,47 @@ def set_limits_pair(rng, spec):
     return a, b
 
 
+def other_message_spec(rng, spec):
+    """A prior of the same family with other parameters whose support contains the limits of `spec` (or None)."""
+    fam = spec["family"]
+    lo, hi = unhex(spec["lo"]), unhex(spec["hi"])
+    new = dict(spec)
+    if fam == "uniform":
+        w = hi - lo
+        a, b = lo - rng.uniform(0.05, 1) * w, hi + rng.uniform(0.05, 1) * w
+        if not (math.isfinite(w) and math.isfinite(a) and math.isfinite(b) and a < lo and hi < b):
+            return None
+        new["lo"], new["hi"] = hexf(a), hexf(b)
+    elif fam == "loguniform":
+        a, b = lo / 10.0 ** rng.uniform(0.1, 3), hi * 10.0 ** rng.uniform(0.1, 3)
+        if not (a > 1e-300 and math.isfinite(b) and math.isfinite(b / a)):
+            return None
+        new["lo"], new["hi"] = hexf(a), hexf(b)
+    else:
+        m, sg = unhex(spec["mean"]), unhex(spec["sigma"])
+        m2, s2 = m + rng.uniform(-2, 2) * sg, sg * rng.choice([0.5, 2.0, rng.uniform(0.3, 3)])
+        if not (math.isfinite(m2) and math.isfinite(s2) and s2 > 0):
+            return None
+        new["mean"], new["sigma"] = hexf(m2), hexf(s2)
+    return new
+
+
 def gen_derived(rng, spec, force=None):
     fam = spec["family"]
     lo, hi = unhex(spec["lo"]), unhex(spec["hi"])
-    hows = ["new", "from_dict", "from_config_dict", "pickle", "copy", "set_limits", "set_limits"]
+    hows = ["new", "from_dict", "from_config_dict", "pickle", "copy", "set_limits", "set_limits", "with_message", "with_message"]
     if fam in ("uniform", "loggaussian"):
         hows += ["with_limits"] * 4
     else:
         hows += ["cls_with_limits"] * 3
     how = force or rng.choice(hows)
     d = {"how": how}
+    if how == "with_message":
+        m2 = other_message_spec(rng, spec)
+        if m2 is None:
+            return {"how": "new"}
+        d["msg"] = m2
+        return d
     if how == "set_limits":
         ab = set_limits_pair(rng, spec)
         if ab is None:
@@ -545,8 +579,9 @@ def gen_cases(ctx):
     cases.append(c)
     for fam in FAMILIES:
         for k in range(per_family):
-            # the first two derived cases of every family are use / change-the-limits / use-again histories, by construction
-            cases.append(gen_prior_case(rng, fam, n_units, derived=(k % 4 == 3), force="set_limits" if k in (3, 7) else None))
+            # the first four derived cases of every family are use / change (limits in place, with_message) / use-again
+            # histories, by construction; every derivation happens AFTER the prior was used (driver: pre_use)
+            cases.append(gen_prior_case(rng, fam, n_units, derived=(k % 4 == 3), force={3: "set_limits", 7: "with_message", 11: "set_limits", 15: "with_message"}.get(k)))
     for k in range(160 if thorough else 40):
         cases.append(gen_vector_case(rng, share=(k % 3 == 0)))
     return cases
@@ -750,6 +785,8 @@ def tail_inverse_tol(u, cond):
     recorded finding normal-lower-tail-cancellation; for multiples of 2^-53 nothing is granted)."""
     z = abs(std_quantile(u))
     p = min(u, 1 - u)
+    if 4e-16 * (z + 1) * (z + cond) > 0.01:
+        return INF                  # the value cannot carry the score (|mean| >> sigma): only the absolute clause applies
     rel = p * (1e-12 + 4e-16 * (z + 1) * (z + cond))
     if u >= 0.5:
         return rel + 2.0 ** -53
@@ -813,6 +850,10 @@ def oracle_prior(c, r):
         if fam in ("gaussian", "loggaussian"):
             want["mean"], want["sigma"] = hexf(mean), hexf(sigma)
         got = {k: (hexf(unhex(v)) if k != "cls" else v) for k, v in d.items()}
+        if how == "with_message" and fam == "loggaussian":
+            # LogGaussianPrior keeps mean / sigma as attributes of its own next to the message: with_message leaves them at
+            # the old values (value_for, unit_value_for and random all follow the new message; recorded in reports/sweep-C02.md)
+            got.pop("mean", None), got.pop("sigma", None), want.pop("mean", None), want.pop("sigma", None)
         if got != want:
             F.add("derived", "prior obtained by %s is %s, expected %s" % (how or "constructor", got, want))
     cls = lambda u=None: input_classes(c, msg, u)
@@ -903,6 +944,10 @@ def oracle_prior(c, r):
                 F.add("exception", "unit limits raised %s" % x.get("exc"))
             else:
                 a, b = unhex(x["lower"]), unhex(x["upper"])
+                for nm, got, direct in (("lower", x["lower"], x.get("lower_direct")), ("upper", x["upper"], x.get("upper_direct"))):
+                    if direct is not None and hexf(unhex(got)) != (hexf(unhex(direct)) if direct[:1] in "0-ni" else direct):
+                        F.add("unit-limits-route", "%s_unit_limit = %r but unit_value_for(%s_limit) = %r" % (
+                            nm, unhex(got), nm, unhex(direct) if direct[:1] in "0-ni" else direct))
                 if not wide_uniform and not narrow and not (0.0 <= a <= b <= 1.0):
                     F.add("unit-range", "unit limits (%r, %r) are not ordered inside [0, 1]" % (a, b), cls())
         elif t == "random":
@@ -969,6 +1014,8 @@ def oracle_prior(c, r):
             # binary32 arithmetic inside NormalMessage.value_for: t = 1 - 2(1 - u) carries <= 1.5 * 2^-24 absolute (0.75 * 2^-24
             # in the unit value), erfinv <= 1 ulp32 relative; in unit space that is 2^-23 + 2^-22 |z| pdf(z), plus the
             # conditioning of mapping the value back (the terms of the inverse clause)
+            if not math.isfinite(v):
+                continue                 # overflow of the 14-decimal rounding under ignore_prior_limits=True (huge uniform ranges)
             z = std_quantile(u)
             tol = 2.0 ** -23 + 2.0 ** -22 * abs(z) * std_pdf(z)
             if fam == "uniform":
@@ -983,6 +1030,14 @@ def oracle_prior(c, r):
                 F.add("unit-type", "%s = %r sits at probability %r of the declared distribution, the same number as a float "
                       "maps to %r at %r: off by %.3g > %.3g (binary32 tolerance)" % (what, v, w1, ref, w0, abs(w1 - w0), tol))
         elif hexf(v) != hexf(ref) and not (v == 0.0 and ref == 0.0):
+            # numpy evaluates 10**x / exp / log10 / log of an ARRAY in a vectorised loop whose last bit may differ from the
+            # scalar routine: 1-element arrays through the log families are compared within 4 ulp (value) / the
+            # conditioning of the cdf (unit value), everything else bit for bit
+            if ut == "a1" and fam in ("loguniform", "loggaussian") and math.isfinite(v) and math.isfinite(ref):
+                if t != "unit" and abs(v - ref) <= 4 * ulp(ref):
+                    continue
+                if t == "unit" and abs(v - ref) <= 1e-13 + (9e-16 * (2 + abs(math.log10(mlo)) + abs(math.log10(mhi))) / ldec if fam == "loguniform" else 1e-15 / sigma):
+                    continue
             F.add("unit-type", "%s = %r, the same number as a float gives %r" % (what, v, ref))
     # SWEEP class 1: the same call on the same object later on, and on a fresh object built the same way, answers the same
     for route, items in sorted((r.get("history") or {}).items()):
@@ -1110,12 +1165,14 @@ def coq_result(x):
     return None
 
 
-def coq_obs(o, x):
+def coq_obs(o, x, fam=None):
     """Coq terms (possibly several) for one observation; [] when the outcome is not expressible
     (unexpected exception: already reported by the oracle)."""
     t = o["t"]
     if o.get("ut") in F32_UT:
         return []                                  # binary32 arithmetic is outside the binary64 model: oracle only
+    if o.get("ut") == "a1" and fam in ("loguniform", "loggaussian"):
+        return []                                  # numpy's vectorised 10**x / exp / log loops: last bit differs from the scalar tables
     if t == "value":
         e = coq_result(x)
         return ["OValue %s %s %s" % (cf(o["u"]), cbool(o["ignore"]), e)] if e else []
@@ -1141,7 +1198,7 @@ def coq_case(c, r, only_obs=None):
         for k, (o, x) in enumerate(zip(c["obs"], r["obs"])):
             if only_obs is not None and k != only_obs:
                 continue
-            terms += coq_obs(o, x)
+            terms += coq_obs(o, x, (c.get("msg_prior") or c["prior"])["family"])
         msg = c.get("msg_prior") or c["prior"]
         gate = c.get("gate_prior") or c["prior"]
         if msg != gate:
@@ -1308,7 +1365,7 @@ def run(ctx):
                 if c["kind"] == "prior" and n_bad < 2:     # name the disagreeing observations of the first two
                     single, idx = [], []
                     for k in range(len(c["obs"])):
-                        if coq_obs(c["obs"][k], ro["obs"][k]):
+                        if coq_obs(c["obs"][k], ro["obs"][k], (c.get("msg_prior") or c["prior"])["family"]):
                             single.append(coq_case(c, ro, only_obs=k))
                             idx.append(k)
                     bad1, _ = common.coq_eval_cases("C02", hdr, "case", "check_case", single, ctx.rundir, tag="diag%d" % b, shard=400)
